@@ -109,7 +109,7 @@ func restoreScenario(bi int) engine.Scenario {
 		uni.Seed(c, name)
 		k := base.k
 		resLit, btpLit := k.literals()
-		s, rejected := build(c, name, resLit, btpLit, nil)
+		s, rejected := build(c, name, resLit, btpLit, nil, false)
 		if c.Failed() {
 			return
 		}
@@ -124,7 +124,7 @@ func restoreScenario(bi int) engine.Scenario {
 		if method == "marshal-into-used" || method == "writeto-into-used" {
 			ok := restoreBases[(bi+2)%len(restoreBases)].k // plain<->ring-degree-switch, noencaps<->conjugate-invariant
 			r2, b2 := ok.literals()
-			o, rej := build(c, name+"/other", r2, b2, nil)
+			o, rej := build(c, name+"/other", r2, b2, nil, false)
 			if rej != "" || c.Failed() {
 				panic("harness: other configuration: " + rej)
 			}
